@@ -2,6 +2,8 @@ import Driver.Util
 import Paroxy.Model.Taxonomy
 import Paroxy.Spec.Taxonomy
 import Paroxy.Gen.Taxonomy
+import Paroxy.Gen.TaxonomyCodes
+import Paroxy.Spec.TaxonomyDefault
 import Std.Data.HashMap
 open Lean Paroxy Paroxy.Taxo
 
@@ -13,7 +15,7 @@ def strsJ (l : List Str) : Json := Json.arr (l.map strJ).toArray
 /-- The text of the taxonomy: `"default": true` = the translator's copy of resources/taxonomy.tsv. -/
 def textOf (j : Json) : Except String Str :=
   match j.getObjValAs? Bool "default" with
-  | .ok true => pure ("\n".intercalate Gen.taxonomyText).toList
+  | .ok true => pure Spec.Taxo.defaultText
   | _ => do
     let t ← getStr j "text"
     pure t.toList
@@ -120,7 +122,14 @@ def toTaxaH : Handler := fun j => do
         Json.mkObj [("raw", taxaJ p.2), ("spec_raw", taxaJ specRaw), ("result", fin)] :: go p.1 rest
     pure (Json.mkObj [("calls", Json.arr (go (init rows) calls).toArray)])
 
+/-- `c09.table_ok`: the executable well-formedness check of `C09_table_wf`, and the number of rows. -/
+def tableOkH : Handler := fun j => do
+  let text ← textOf j
+  pure (Json.mkObj [("ok", Json.bool (Spec.Taxo.tableOk text)),
+    ("data_lines", Json.num (JsonNumber.fromNat (rawLines text).length)),
+    ("translator_ok", Json.bool Gen.taxonomyCodesOk)])
+
 def handlers : List (String × Handler) :=
-  [("c09.is_literal", isLiteralH), ("c09.parse", parseH), ("c09.run", runH), ("c09.to_taxa", toTaxaH)]
+  [("c09.table_ok", tableOkH), ("c09.is_literal", isLiteralH), ("c09.parse", parseH), ("c09.run", runH), ("c09.to_taxa", toTaxaH)]
 
 end Driver.C09
